@@ -283,6 +283,9 @@ func (r *run) recoverImage(root, template string, log []simos.Effect, k int, tru
 			sub.now = r.now
 			sub.deliver(bi, fmt.Sprintf("re-feeding block[%d] after crash recovery", bi))
 		}
+		if os.Getenv("VSIM_DEBUG") != "" {
+			fmt.Fprintf(os.Stderr, "DBG refeed done: sub.bad=%v violations=%d staleUndo=%q desc=%s\n", sub.bad, len(out.Violations), staleUndo, desc)
+		}
 		if sub.bad {
 			// the violation has been recorded by sub.viol through the shared outcome
 			ok = false
